@@ -691,6 +691,28 @@ def damage_xml(objs, rng: random.Random, sweep=None):
     return None, None, None
 
 
+def text_stream_declaration_check() -> List[C.Failing]:
+    """(round 8, named by a seeding agent) a well-formed XML document handed over as a TEXT stream (the readers take paths and
+    file objects, text or binary - the JSON reader documents both) that starts with an XML declaration naming an encoding:
+    lxml refuses str input with an encoding declaration with ValueError, which leaves the reader in failsafe mode too."""
+    c03._quiet()
+    from basyx.aas.adapter.xml import read_aas_xml_file
+    out: List[C.Failing] = []
+    doc = ('<?xml version="1.0" encoding="UTF-8"?><aas:environment xmlns:aas="https://admin-shell.io/aas/3/0"><aas:submodels><aas:submodel>'
+           '<aas:id>urn:ts</aas:id></aas:submodel></aas:submodels></aas:environment>')
+    for failsafe in (True, False):
+        try:
+            got = list(read_aas_xml_file(io.StringIO(doc), failsafe=failsafe))
+            if len(got) != 1:
+                out.append(C.Failing("xml:text-stream-with-declaration:lost", f"failsafe={failsafe}: {len(got)} objects read", {"text_stream_declaration": failsafe}))
+        except Exception as e:   # noqa
+            if failsafe:
+                out.append(C.Failing(f"failsafe:xml:text-stream-with-declaration:raises:{type(e).__name__}", "a well-formed XML document given as a text "
+                                     f"stream that begins with an XML declaration naming an encoding: the failsafe reader raised {type(e).__name__} ({str(e)[:80]})",
+                                     {"text_stream_declaration": True}))
+    return out
+
+
 def deep_nesting_check() -> List[C.Failing]:
     """(round 8, named by a seeding agent) a WELL-FORMED document may be nested deeper than the interpreter follows (collections
     within collections; XML has no such limit in lxml's parser, JSON has): failsafe reading does not raise, strict reading raises a
@@ -775,6 +797,7 @@ def oracle(ctx: C.Ctx, cov: C.Coverage, n: Optional[int] = None, seed: Optional[
     out += [f for f in duplicate_id_check() if f.sig not in {g.sig for g in out}]
     out += [f for f in blank_text_check() if f.sig not in {g.sig for g in out}]
     out += [f for f in deep_nesting_check() if f.sig not in {g.sig for g in out}]
+    out += [f for f in text_stream_declaration_check() if f.sig not in {g.sig for g in out}]
     return out
 
 
@@ -965,6 +988,9 @@ def search(ctx: C.Ctx, disagreements, broken) -> List[C.Failing]:
 
 
 def replay(case) -> Optional[C.Failing]:
+    if isinstance(case, dict) and "text_stream_declaration" in case:
+        fs_ = [f for f in text_stream_declaration_check() if f.case == case]
+        return fs_[0] if fs_ else None
     if isinstance(case, dict) and "deep_nesting" in case:
         fs_ = [f for f in deep_nesting_check() if f.case.get("failsafe") == case["failsafe"]]
         return fs_[0] if fs_ else None
